@@ -1,6 +1,76 @@
-(* Properties/C14.v — canonical DSL output.  Statements only. *)
-From Verif Require Import Base.Str Model.Printer.
+(* Properties/C14.v — DSL output is canonical; source-info comments are inert.
+   Statements only; proofs in Proofs/SortFacts.v, PrinterOrder.v, PrinterCanonical.v.
+   Go maps are association lists here; "another iteration order / another JSON key order" is a
+   Permutation of the list, and distinct keys (NoDup) is what being a map means. *)
+From Coq Require Import Permutation Sorted.
+From Verif Require Import Base.Str Base.Outcome Model.Ast Model.Printer
+  Proofs.SortFacts Proofs.PrinterOrder Proofs.PrinterCanonical.
 
-(* without the option no source comment is ever produced *)
+(* 1. sortByModule is a strict total order on items with distinct names: lexicographic on
+      (unattributed first, module, file, name) *)
+Theorem C14_cmp_transitive : forall a b c, sbm a b = Lt -> sbm b c = Lt -> sbm a c = Lt.
+Proof. exact sbm_trans. Qed.
+Theorem C14_cmp_antisymmetric : forall a b, sbm b a = CompOpp (sbm a b).
+Proof. exact sbm_antisym. Qed.
+Theorem C14_cmp_total : forall a b, k_name a <> k_name b -> sbm a b = Lt \/ sbm b a = Lt.
+Proof. exact sbm_total. Qed.
+
+(* 2. the relation map and the relation-metadata map of a type in any order: same text *)
+Theorem C14_relations_perm : forall (t : typedef) rels' meta' modular src,
+  NoDup (keys (td_rels t)) -> Permutation (td_rels t) rels' ->
+  NoDup (keys (td_meta_rels t)) -> Permutation (td_meta_rels t) meta' ->
+  print_type t modular src =
+  print_type {| td_name := td_name t; td_rels := rels';
+                td_meta := match td_meta t with
+                           | Some md => Some {| tm_rels := meta'; tm_module := tm_module md; tm_file := tm_file md |}
+                           | None => None
+                           end |} modular src.
+Proof. exact print_type_rels_perm. Qed.
+
+(* 3. the condition map of a model in any order, the parameter map of a condition in any order *)
+Theorem C14_conditions_perm : forall src (m : model) cs',
+  NoDup (keys (m_conds m)) -> Permutation (m_conds m) cs' ->
+  print_model src m = print_model src {| m_schema := m_schema m; m_types := m_types m; m_conds := cs' |}.
+Proof. exact print_model_conds_perm. Qed.
+Theorem C14_parameters_perm : forall key (c : condition) ps' src,
+  NoDup (keys (c_params c)) -> Permutation (c_params c) ps' ->
+  print_condition key c src =
+  print_condition key {| c_name := c_name c; c_expr := c_expr c; c_params := ps'; c_meta := c_meta c |} src.
+Proof. exact print_condition_params_perm. Qed.
+
+(* 4. the type definitions of a modular model in any order *)
+Theorem C14_type_order : forall src (m : model) ts',
+  is_modular_model m = true -> NoDup (map td_name (m_types m)) -> Permutation (m_types m) ts' ->
+  fst (print_model src m) = fst (print_model src {| m_schema := m_schema m; m_types := ts'; m_conds := m_conds m |}).
+Proof. exact print_model_types_perm. Qed.
+
+(* 5. the documented order: relation names of a non-modular type come out strictly increasing *)
+Theorem C14_documented_order : forall names : list str,
+  NoDup names -> StronglySorted (fun a b => str_compare a b = Lt) (stable_sort str_compare names).
+Proof.
+  intros names Hnd.
+  apply (stable_sort_sorted str_compare (fun _ => True)); auto.
+  - intros a b c _ _ _. apply str_compare_trans.
+  - intros a b _ _. apply str_compare_total.
+  - apply Forall_forall; auto.
+Qed.
+
+(* 6. without the option no source comment is produced; with it, an item without module and file gets none *)
 Theorem C14_no_comment_without_option : forall m f l, source_comment m f l false = [].
 Proof. intros m f l. unfold source_comment. rewrite orb_true_r. reflexivity. Qed.
+Theorem C14_no_comment_for_unattributed : forall l b, source_comment [] [] l b = [].
+Proof. reflexivity. Qed.
+
+(* non-vacuity: the hypotheses of 2-4 are satisfiable by a model with two types, two relations, two conditions *)
+Example C14_hypotheses_satisfiable :
+  let t1 := {| td_name := lit "doc"; td_rels := [(lit "b", UComputed (lit "a")); (lit "a", UThis ThisEmpty)];
+               td_meta := Some {| tm_rels := []; tm_module := lit "core"; tm_file := None |} |} in
+  let t2 := {| td_name := lit "user"; td_rels := []; td_meta := Some {| tm_rels := []; tm_module := lit "core"; tm_file := None |} |} in
+  let m := {| m_schema := lit "1.2"; m_types := [t1; t2]; m_conds := [] |} in
+  is_modular_model m = true /\ NoDup (map td_name (m_types m)) /\ NoDup (keys (td_rels t1)) /\
+  fst (print_model false m) = fst (print_model false {| m_schema := lit "1.2"; m_types := [t2; t1]; m_conds := [] |}).
+Proof.
+  simpl. repeat split; try reflexivity.
+  - repeat constructor; simpl; intuition discriminate.
+  - repeat constructor; simpl; intuition discriminate.
+Qed.
